@@ -7,6 +7,7 @@ command exit 1, but it is never reported as a VIOLATION of a listed property.
    input file's directory, then as a key of ~/.rbql_table_names -- Frontends!ResolveTable, judged by TLC.
 4. the repository's own scenario file (test/rbql_unit_tests.json) run against the tree, recorded and judged by the TLA+ monitors (EngineTrace), plus
    the scenarios' own expectations in both ports (the pinned suite never executes the tree).
+5. Pipeline.tla (query_csv at the level of text, see C13) through rbql-js query_csv, stream and bulk read.
 3. rbql-js file front-ends (rbql_csv.query_csv stream / bulk, node cli_rbql.js): the C13 cases in JavaScript syntax against Stringify / CliOk.
 2. user init code (engine): runs once after set_header and before the first get_record; functions it defines are
    visible to every clause; an exception in it is reported as such -- RbqlEngine (q.init, action RunInit).
@@ -328,6 +329,66 @@ def repo_scenarios(run):
             run.violation({'impl': 'js', 'what': 'repository scenario fails on the tree', 'scenario': sc['test_name'], 'detail': p[:300], 'query': sc['query_js']}, {'kind': 'scenario', 'name': sc['test_name']})
 
 
+def js_pipeline(run, label, alphabet, maxlen, header):
+    """Pipeline.tla (query_csv at the level of text) through rbql-js query_csv, stream and bulk read."""
+    from .. import node, par, messages
+    from ..text import s as S
+    d = tlcrun.new_scratch('extp')
+    consts = {'DlmA': 44, 'DlmB': 0, 'EmitCases': 'TRUE', 'Recs': '{}', 'MaxRecs': 0, 'WPolicies': '{}', 'LineSeps': '{}',
+              'PAlphabet': '{' + ', '.join(map(str, alphabet)) + '}', 'PMaxLen': maxlen, 'InPolicies': '{"simple", "quoted", "quoted_rfc"}',
+              'OutPolicies': '{"simple", "quoted", "quoted_rfc"}', 'OutDlm': 59, 'WithHeader': 'TRUE' if header else 'FALSE'}
+    cfg = tlcrun.write_cfg(os.path.join(d, label + '.cfg'), constants=consts, init='PInit', next_='PNext', invariants=['ReReadable', 'PEmit'])
+    res = tlcrun.run_tlc('Pipeline', cfg, timeout=7200, heap='24g')
+    run.add_tlc('Pipeline:' + label, res)
+    root = tempfile.mkdtemp(prefix='rbqlverif_extp_')
+    try:
+        reqs, meta = [], []
+        texts = {}
+        for case in res.cases:
+            key = tuple(case['text'])
+            if key not in texts:
+                texts[key] = os.path.join(root, 'in%d.csv' % len(texts))
+                with open(texts[key], 'wb') as f:
+                    f.write(S(case['text']).encode('utf-8'))
+            for bulk in (False, True):
+                reqs.append({'op': 'query_csv', 'query': 'select *' if case['qk'] == 1 else 'select NR, a1', 'input': texts[key], 'output': os.path.join(root, 'o%d.csv' % len(reqs)),
+                             'in_dlm': ',', 'in_policy': case['ipol'], 'out_dlm': ';', 'out_policy': case['opol'], 'with_headers': bool(case['header']), 'bulk': bulk})
+                meta.append((case, bulk))
+        resp = node.run_batch(reqs, nproc=par.NPROC)
+        for (case, bulk), r in zip(meta, resp):
+            run.traces += 1
+            run.count(['jspipe', case['text'], case['ipol'], case['opol'], case['qk'], bulk], nontrivial=len(case['text']) >= 2)
+            base = {'impl': 'js', 'frontend': 'query_csv' + ('-bulk' if bulk else ''), 'in_policy': case['ipol'], 'out_policy': case['opol'], 'qk': case['qk'], 'header': case['header']}
+            err = r.get('error')
+            sig = None
+            if case['hdrerr']:
+                if not err or engine.JS_ERR.get(err['cls'], err['cls']) != 'runtime' or messages.near('record', err['msg']) != case['hdrerr']:
+                    sig = dict(base, what='record wider / narrower than the header under select *: runtime error at that record', got=err, want=case['hdrerr'])
+            elif case['rderr']:
+                if not err or engine.JS_ERR.get(err['cls'], err['cls']) != 'io' or messages.record_and_line(err['msg']) != (case['errnr'], case['errnl']):
+                    sig = dict(base, what='malformed input: IO-handling error citing record and line', got=err, want=[case['errnr'], case['errnl']])
+            elif err:
+                sig = dict(base, what='unexpected error', got=err['msg'][:160])
+            else:
+                ks = messages.kinds(r.get('warnings'))
+                gq = [k[1] for k in ks if k[0] == 'quoting']
+                gr = [k[1] for k in ks if k[0] == 'ragged']
+                if r['text'] != S(case['out']):
+                    sig = dict(base, what='output text', got=r['text'], want=S(case['out']))
+                elif any(k[0] == 'bom' for k in ks) != case['bom']:
+                    sig = dict(base, what='BOM warning', got=r.get('warnings'))
+                elif (gq[0] if gq else 0) != case['firstdef']:
+                    sig = dict(base, what='quoting warning', got=gq, want=case['firstdef'])
+                elif (gr[0] if gr else []) != list(case['ragged']):
+                    sig = dict(base, what='field-count warning', got=gr, want=case['ragged'])
+                elif any(k[0] == 'separator' for k in ks) != case['wdelim']:
+                    sig = dict(base, what='separator warning', got=r.get('warnings'), want=case['wdelim'])
+            if sig:
+                run.violation(sig, {'kind': 'js_pipeline', 'case': case})
+    finally:
+        shutil.rmtree(root, ignore_errors=True)
+
+
 def check(run):
     run.prop = 'EXT'
     run.rule = ('extensions of the specification beyond the listed properties: join-table lookup order (16 existence combinations x relative/absolute id, each in a fresh process with its own HOME and working directory); '
@@ -336,6 +397,8 @@ def check(run):
     table_lookup(run)
     repo_scenarios(run)
     ec.run_family(run, 'EXT-user-init-code', 'Q_EXTinit', 'R_2x2', maxA=2, hdrmodes=(False, True))
+    js_pipeline(run, 'EXT-js-text-pipeline', [97, 34, 44, 59, 10, 32], 3, False)
+    js_pipeline(run, 'EXT-js-text-pipeline-header', [97, 34, 44, 59, 10, 32], 3, True)
     js_frontends(run, 'EXT-js-frontends', 'Q_C13', 'R_2x2p', 2)
     js_frontends(run, 'EXT-js-frontends-join', 'Q_C13join', 'R_2x2', 2, recsB='R_2x2', maxB=2, cli_every=40)
     run.exhaustive = True
